@@ -4,8 +4,8 @@ from ..stage import LineStage, replay_line
 from .common import *
 from . import c01, c02, c03, c09, c10
 
-ARTEFACTS = ["G1-consts", "G2-rs-portable", "G3-arith", "G4-listings", "G9-update", "G22-dispatch", "G25-oneshot", "G8-chunkstate", "G35-build-rs", "G36-cfg-gates"]
-EXTRA_PROPS = [("B3.Props.C01T", "B3/Props/C01T.lean"), ("B3.Props.C04T", "B3/Props/C04T.lean"), ("B3.Props.C01O", "B3/Props/C01O.lean"), ("B3.Props.C02T", "B3/Props/C02T.lean"), ("B3.Props.C04B", "B3/Props/C04B.lean")]   # theorems about the code translated from the sources
+ARTEFACTS = ["G1-consts", "G2-rs-portable", "G3-arith", "G4-listings", "G9-update", "G22-dispatch", "G25-oneshot", "G8-chunkstate", "G35-build-rs", "G36-cfg-gates", "G38-rs-wasm32-simd", "G39-c-neon"]
+EXTRA_PROPS = [("B3.Props.C01T", "B3/Props/C01T.lean"), ("B3.Props.C04T", "B3/Props/C04T.lean"), ("B3.Props.C01O", "B3/Props/C01O.lean"), ("B3.Props.C02T", "B3/Props/C02T.lean"), ("B3.Props.C04B", "B3/Props/C04B.lean"), ("B3.Simd.WasmProps", "B3/Simd/WasmProps.lean"), ("B3.Simd.CNeonProps", "B3/Simd/CNeonProps.lean")]   # theorems about the code translated from the sources
 RULE = ("every script of the C01/C02/C03/C09 generators is replicated at each forced platform {portable, sse2, sse41, avx2, avx512} "
         "(hook: thread-local override in Platform::detect) and compared with the ONE Lean model (whose SIMD degree is a parameter) and "
         "the spec, which makes all levels equal to each other; the same scripts run against a `pure` build (Rust intrinsics, no "
@@ -13,7 +13,7 @@ RULE = ("every script of the C01/C02/C03/C09 generators is replicated at each fo
         "tier (stock feature flags cross-check the hook); feature sets: harness/rs enables std+rayon+mmap+zeroize+serde+traits-preview, "
         "harness/rs_min builds the crate with default-features = false and nothing else and runs the same scripts (minus the platform "
         "hook); histories include re-use after reset and clone_from; non-trivial = script with >= 2 chunks of input; distinct = distinct script")
-ASSUMPTIONS = ["NEON and wasm cannot run on this machine; they are outside the property's list",
+ASSUMPTIONS = ["NEON and wasm cannot run on this machine and are outside the property's list; their kernel files are nevertheless translated and proved equal to the specification over trusted lane models (G38, G39)",
                "feature sets between 'none' and 'all optional features' are not built separately (each optional feature only adds cfg-gated items; G4 lists them)"]
 NOT_PROVED = []
 
